@@ -193,27 +193,30 @@ theorem parse_valid' (G : CFG) (w : List String) (fuel : Nat) (t : PTree)
     (h : parse G w fuel = some (some t)) : G.treeValid t w = true := by
   unfold parse at h
   split at h
-  · next tb s htb hst =>
+  · cases h
+  · next s hst =>
     split at h
     · cases h
-    · cases h
-    · next ps hps =>
+    · next tb htb =>
       split at h
-      · next t' hbt =>
-        cases h
-        obtain ⟨ps', h1, h2, h3⟩ := parseLoop_lm (fun p => p ∈ G.prods) tb (table_entry G fuel tb htb)
-          fuel [.var s] w [] ps hps
-        simp only [List.reverse_nil, List.nil_append] at h1
-        subst h1
-        have g := buildTree_good G fuel _ _ _ _ hbt
-        obtain ⟨w2, hw, hl⟩ := g.yld [] w h2
-        obtain ⟨_, rfl⟩ := lm_nil_inv hl
-        unfold treeValid
-        rw [hst]
-        simp only [Bool.and_eq_true, decide_eq_true_eq]
-        exact ⟨⟨g.sym, g.wf h3⟩, by rw [hw]; simp⟩
       · cases h
-  · cases h
+      · cases h
+      · next ps hps =>
+        split at h
+        · next t' hbt =>
+          cases h
+          obtain ⟨ps', h1, h2, h3⟩ := parseLoop_lm (fun p => p ∈ G.prods) tb
+            (table_entry G fuel tb htb) fuel [.var s] w [] ps hps
+          simp only [List.reverse_nil, List.nil_append] at h1
+          subst h1
+          have g := buildTree_good G fuel _ _ _ _ hbt
+          obtain ⟨w2, hw, hl⟩ := g.yld [] w h2
+          obtain ⟨_, rfl⟩ := lm_nil_inv hl
+          unfold treeValid
+          rw [hst]
+          simp only [Bool.and_eq_true, decide_eq_true_eq]
+          exact ⟨⟨g.sym, g.wf h3⟩, by rw [hw]; simp⟩
+        · cases h
 
 
 /-! ### the parsing table -/
